@@ -352,3 +352,50 @@ Proof.
   apply (page_loop_terminates R R_eqb lc (blank_of_report_loop true ov flags) sc mu F Hp Hf
            (blank_of_report_loop_ok ov flags)).
 Qed.
+
+(* ---- later rounds: the re-use of up-to-date pages *)
+Section Reuse.
+  Variable R : Type.
+  Variable R_eqb : R -> R -> bool.
+  Variable layout_content : option R -> nat -> (option R * brk * nat) * (bool * bool).
+  Variable layout_blank : nat -> nat * (bool * bool).
+  Variable state_changed : nat -> bool.
+  Notation remake_page := (remake_page R R_eqb layout_content layout_blank state_changed).
+  Notation make_all_pages := (make_all_pages R R_eqb layout_content layout_blank state_changed).
+
+  Lemma idx_cases {A} site (l : list A) n : (exists a, idx site l n = Ok a) \/ idx site l n = Panic site.
+  Proof. unfold idx. destruct (nth_error l n); eauto. Qed.
+
+  Lemma remake_page_sites i pm fn :
+    (exists r, remake_page i pm fn = Ok r) \/ remake_page i pm fn = Panic 909 \/ remake_page i pm fn = Panic 966.
+  Proof.
+    unfold remake_page, PageLoop.remake_page.
+    destruct (idx_cases 909 pm i) as [[tmp ->]| ->]; cbn [bind]; [|auto].
+    destruct (side_mismatch (i_brk tmp) (i_right tmp) || (negb (fn =? 0) && is_none (i_resume tmp))).
+    - destruct (layout_blank fn) as [fn' [cc pw]].
+      destruct (length _ <=? i + 1); cbn [bind]; [eauto|].
+      match goal with |- context [idx 966 ?l ?n] => destruct (idx_cases 966 l n) as [[nx ->]| ->] end; cbn [bind]; eauto.
+    - destruct (layout_content (i_resume tmp) fn) as [[[r' b'] fn'] [cc pw]].
+      destruct (length _ <=? i + 1); cbn [bind]; [eauto|].
+      match goal with |- context [idx 966 ?l ?n] => destruct (idx_cases 966 l n) as [[nx ->]| ->] end; cbn [bind]; eauto.
+  Qed.
+
+  (* the re-use branch of the repaired loop never indexes a page that the previous
+     round does not have (site 1021) *)
+  Lemma reuse_index_in_range : forall fuel pm old fn i out,
+    make_all_pages fuel pm old fn i out <> Panic 1021.
+  Proof.
+    induction fuel as [|fuel IH]; intros pm old fn i out; cbn [make_all_pages PageLoop.make_all_pages]; [discriminate|].
+    destruct (idx_cases 1003 pm i) as [[it ->]| ->]; cbn [bind]; [|discriminate].
+    destruct ((old =? 0) || (old <=? i) || i_changed it || i_wanted it) eqn:Hc.
+    - destruct (remake_page_sites i (set_nth pm i (mk_item (i_resume it) (i_brk it) (i_right it) false false)) fn)
+        as [[[[[pg ra] fn'] pm2] ->]|[-> | ->]]; cbn [bind]; try discriminate.
+      destruct (is_none ra && (fn' =? 0)); [discriminate|apply IH].
+    - destruct (idx_cases 1019 pm (i + 1)) as [[nx ->]| ->]; cbn [bind]; [|discriminate].
+      assert (Hlt : (i <? old) = true).
+      { apply orb_false_iff in Hc as [Hc _]. apply orb_false_iff in Hc as [Hc _].
+        apply orb_false_iff in Hc as [_ Hc]. apply Nat.leb_gt in Hc. now apply Nat.ltb_lt. }
+      rewrite Hlt. cbn [bind].
+      destruct (is_none (i_resume nx) && (0 =? 0)); [discriminate|apply IH].
+  Qed.
+End Reuse.
